@@ -73,9 +73,9 @@ class Fraction:
             return Fraction(self.num*other.num, self.den*other.den)
         elif isinstance(other, tuple):
             return Fraction(self.num*other[0], self.den*other[1])
-        elif isinstance(other, float) and not other.is_integer():
+        elif isinstance(other, (float, np.floating)) and not float(other).is_integer():
             # the rational a float exponent denotes (0.5 -> 1:2), instead of truncating num*other
-            other = _Rational(other).limit_denominator(1000)
+            other = _Rational(float(other)).limit_denominator(1000)
             return Fraction(self.num*other.numerator, self.den*other.denominator)
         else:
             return Fraction(self.num*other, self.den)
@@ -85,8 +85,8 @@ class Fraction:
             return Fraction(self.num*other.den, self.den*other.num)
         elif isinstance(other, tuple):
             return Fraction(self.num*other[1], self.den*other[0])
-        elif isinstance(other, float) and not other.is_integer():
-            other = _Rational(other).limit_denominator(1000)
+        elif isinstance(other, (float, np.floating)) and not float(other).is_integer():
+            other = _Rational(float(other)).limit_denominator(1000)
             return Fraction(self.num*other.denominator, self.den*other.numerator)
         else:
             return Fraction(self.num, self.den*other)
